@@ -328,7 +328,7 @@ public:
       c[g].conserved(4) = std::max(c[g].conserved(4), 0.);
       for (int j = 0; j < 5; ++j) {
         s.unew[g][j] = c[g].conserved(j);
-        s.tol[g][j] = 8. * EPS *
+        s.tol[g][j] = 16. * EPS *
                       (dt * s.absflux[g][j] + std::abs(s.uold[g][j]) +
                        std::abs(s.unew[g][j]));
       }
